@@ -46,7 +46,13 @@ def variant_of_source():
     sy = "0" if re.search(r"sync_mmap\(pool,\s*fsm->bmoff\s*,", m.group(0) if m else "") else "1"
     m = re.search(r"static iwrc _fsm_deallocate\(.*?\n}\n", txt, re.S)
     sh = "1" if re.search(r"length_blk\s*<\s*1", m.group(0) if m else "") else "0"
-    return lf + st + sy + sh
+    m = re.search(r"static iwrc _fsm_reallocate\(.*?\n}\n", txt, re.S)
+    rg = "1" if re.search(r"IW_RANGES_OVERLAP\(oaddr_blk", m.group(0) if m else "") else "0"
+    m = re.search(r"_fsm_find_matching_fblock_lw\(.*?\n}\n", txt, re.S)
+    hi = "1" if re.search(r"offset_blk\s*=\s*\(uint32_t\)\s*-1", m.group(0) if m else "") else "0"
+    m = re.search(r"static iwrc _fsm_resize_fsm_bitmap_lw\(.*?\n}\n", txt, re.S)
+    lk = "1" if re.search(r"\bcarved\b", m.group(0) if m else "") else "0"
+    return lf + st + sy + sh + rg + hi + lk
 
 
 def roundup(x, v):
